@@ -5,3 +5,5 @@ cd "$(dirname "$0")"
 coqc -Q ../coq TW ../coq/Extract.v > extract.log 2>&1 || { cat extract.log; exit 1; }
 ocamlfind ocamlopt -O3 -w -a -package str model.mli model.ml util.ml checks.ml driver.ml -o driver 2>&1 || \
 ocamlfind ocamlopt -w -a model.mli model.ml util.ml checks.ml driver.ml -o driver
+ocamlfind ocamlopt -O3 -w -a -package str model.mli model.ml util.ml colmin_search.ml -o colmin_search 2>&1 || \
+ocamlfind ocamlopt -w -a model.mli model.ml util.ml colmin_search.ml -o colmin_search
